@@ -373,10 +373,14 @@ def r10_11(ctx: Ctx) -> None:
         if dotted(c.func) in ("os.stat", "os.path.getsize", "open") and c.args:
             srcs = [c.args[0]] + list(q.sources_of(a, c.args[0], depth=2))
             if any(isinstance(x, ast.Attribute) and x.attr == "filename" for e in srcs for x in ast.walk(e)):
-                ok = q.known_not_none(q.facts_at(a, c), c.args[0])
-                ctx.check(ok, "R10.11", a, c, "archiveinfo uses the file name only where it is known to exist",
-                          f"archiveinfo() evaluates `{norm(c)}` without a None test on the file name (an assert is not one): for an archive opened from BytesIO the summary "
-                          "fails with AssertionError / TypeError although every other listing call works", construct="archiveinfo filename")
+                ok = False  # the name is a label: relative to the working directory of the open() call, or the `name` of a stream inside another container
+                ctx.check(ok, "R10.11", a, c, "archiveinfo measures the open handle, not a file of the archive's name",
+                          f"archiveinfo() evaluates `{norm(c)}`: the size of whatever file has that NAME now (after a chdir: another file or none; for a 7z read from a zip member: "
+                          "a file called like the member), or AssertionError / TypeError for a nameless stream - the summary's total size must come from the handle (os.fstat(fileno()) "
+                          "or the stream's length)", construct="archiveinfo filename")
+    sized = any(dotted(c.func) == "os.fstat" for c in q.calls(a)) or any(attr_tail(c) == "seek" and len(c.args) == 2 and "SEEK_END" in norm(c.args[1]) for c in q.calls(a))
+    ctx.check(sized, "R10.11", a, a.node, "archiveinfo takes the archive's size from the handle", "archiveinfo() has no source for the size of the archive that is tied to the open handle",
+              construct="archiveinfo size source")
     d = ctx.prog.func("py7zr", "ArchiveFile.is_directory")
     rets = [r for r in walk(d.node) if isinstance(r, ast.Return) and r.value is not None]
     ctx.floor("R10.11", len(rets), 1, "returns of ArchiveFile.is_directory")
@@ -414,6 +418,22 @@ def r10_13(ctx: Ctx, rule: str = "R10.13") -> None:
                   construct="EmptyFile bits assignment")
 
 
+def r10_14(ctx: Ctx, rule: str = "R10.14") -> None:
+    """the listing of a write session describes what was ARCHIVED: Worker.archive stores the member's `uncompressed` size on every path - the
+    size that went into the stream (the last entry of substreamsinfo.unpacksizes) for a member with a stream, 0 for one without.  _make_file_info
+    only knows stat(): nothing for directories and links (None: list() shows None and archiveinfo() dies with TypeError on the sum), the stat
+    size for files that grow or are pseudo files."""
+    f = ctx.prog.func("py7zr", "Worker.archive")
+    cfg = cfg_of(f.node)
+    sets = [n for n in walk(f.node) if isinstance(n, ast.Assign) and isinstance(n.targets[0], ast.Subscript) and isinstance(n.targets[0].slice, ast.Constant)
+            and n.targets[0].slice.value == "uncompressed"]
+    ok = bool(sets) and cfg.every_path_to_exit_passes(cfg.entry, [q.node_for(f, n) for n in sets])
+    from_stream = any("unpacksizes" in norm(n.value) or "insize" in norm(q.expand_locals(f, n.value)) for n in sets)
+    ctx.check(ok and from_stream, rule, f, sets[0] if sets else f.node, "Worker.archive records the archived size of every member",
+              "Worker.archive does not store `uncompressed` for every member it registers (from what went into the stream; 0 without a stream): in a write or append session list() reports "
+              "None for directories and links and archiveinfo() raises TypeError, and after close() and re-open the same members list differently", construct="archived size not recorded")
+
+
 def r10_12(ctx: Ctx) -> None:
     """one member's time stamp cannot abort the listing: a FILETIME is any 64-bit number, datetime ends with year 9999.  Every conversion of
     a stored FILETIME to datetime in the listing functions (filetime_to_dt, ArchiveTimestamp.as_datetime, fromtimestamp) stands in a try
@@ -435,6 +455,7 @@ def r10_12(ctx: Ctx) -> None:
 
 
 def run(ctx: Ctx) -> None:
+    r10_14(ctx)
     r10_13(ctx)
     r10_12(ctx)
     r10_11(ctx)
